@@ -96,7 +96,7 @@ def build_file(blocks, style="hash", eol="\n", prefix="b"):
 
 
 def run_batch(ctx, blocks, style, code, model, eol="\n", flavour="rel", check_positions=True, extra_env=None,
-              sig_prefix="", nontrivial_fn=None, key_fn=None, sets_fn=None, prefix="b"):
+              sig_prefix="", nontrivial_fn=None, key_fn=None, sets_fn=None, prefix="b", ignore_codes=()):
     """Run one batch and judge every block.
 
     model(block) -> None | dict(line_idx, key, c1, c2) for range validators, or dict(data=...) for
@@ -122,7 +122,12 @@ def run_batch(ctx, blocks, style, code, model, eol="\n", flavour="rel", check_po
                      witness={"file": text[:6000], "observed": res.brief(2000)}, evals=1)]
     by_name = {}
     stray = []
+    ignored_error = False
     for d in diags.get(fname, []):
+        if d.get("code") in ignore_codes:
+            if d.get("severity") == 1:
+                ignored_error = True
+            continue
         if d.get("code") != code:
             stray.append(d)
             continue
@@ -188,7 +193,7 @@ def run_batch(ctx, blocks, style, code, model, eol="\n", flavour="rel", check_po
                           summary="diagnostics for blocks that do not exist: %s" % sorted(by_name)[:5],
                           witness={"file": text[:6000]}, evals=0))
     # exit status must follow the diagnostics
-    want_rc = 1 if any_error_expected else 0
+    want_rc = 1 if (any_error_expected or ignored_error) else 0
     if res.rc != want_rc and not any(c.status == VIOLATED for c in cases):
         cases.append(Case(VIOLATED, key=h(text), nontrivial=True, sig="%s/exit-status" % sig_prefix,
                           summary="exit %d but expected %d for this batch" % (res.rc, want_rc),
